@@ -356,7 +356,47 @@ class ExecSuite(PipeSuite):
         return head + " :: " + print_prog(items)
 
 
-SUITES = {"plan": PlanSuite(), "exec": ExecSuite()}
+class WorldSuite(PipeSuite):
+    name = "world"
+
+    def gens(self, tier, seed, sspec):
+        s = str(seed)
+        if tier == "quick":
+            return [("exhaustive len<=4 over 2 keys, 12-op menu, stride 4", ["--gen", "exh", "--count", "4", "--seed", s], {}),
+                    ("random histories (len<=200, 4 types x 3 dynamic ids)", ["--gen", "random", "--count", "150", "--seed", s], {}),
+                    ("histories with mismatching type arguments", ["--gen", "malformed", "--count", "150", "--seed", s], {})]
+        if tier == "thorough":
+            return [("exhaustive len<=4 over 2 keys, 12-op menu", ["--gen", "exh", "--count", "1", "--seed", s], {}),
+                    ("random histories", ["--gen", "random", "--count", "6000", "--seed", s], {}),
+                    ("histories with mismatching type arguments", ["--gen", "malformed", "--count", "6000", "--seed", s], {})]
+        return [("search:random", ["--gen", "random", "--count", "1500", "--seed", s], {}),
+                ("search:malformed", ["--gen", "malformed", "--count", "1500", "--seed", s], {}),
+                ("search:exh stride 2", ["--gen", "exh", "--count", "2", "--seed", s], {})]
+
+    def shrink(self, case, oracle):
+        head, _, body = case.partition(" :: ")
+        ops = [o.strip() for o in body.split(";") if o.strip()]
+        budget = 300
+        changed = True
+        while changed and budget > 0:
+            changed = False
+            n = len(ops)
+            size = max(1, n // 2)
+            while size >= 1 and not changed:
+                for start in range(0, n, size):
+                    cand = ops[:start] + ops[start + size:]
+                    budget -= 1
+                    if budget <= 0:
+                        break
+                    if cand and self.still_fails(head + " :: " + " ; ".join(cand), oracle):
+                        ops = cand
+                        changed = True
+                        break
+                size //= 2
+        return head + " :: " + " ; ".join(ops)
+
+
+SUITES = {"plan": PlanSuite(), "exec": ExecSuite(), "world": WorldSuite()}
 
 
 # ----------------------------------------------------------------------------------------
